@@ -190,6 +190,14 @@ func (c *ConstantStruct) Link(scope Scope, t TypeSpec) (ConstantValue, error) {
 	}
 
 	for _, field := range s.Fields {
+		if s.linkScope != nil && !field.linkingDefault {
+			// The struct is still being linked (it was reached through a
+			// cycle): its remaining fields have not been resolved yet.
+			if err := field.Link(s.linkScope); err != nil {
+				return nil, constantValueCastError{Value: c, Type: t, Reason: err}
+			}
+		}
+
 		f, ok := c.Fields[field.Name]
 		if !ok {
 			if field.Default == nil {
